@@ -442,6 +442,58 @@ func checkC02TrimAndQuote(c *Ctx) {
 		r.Unk("C02.trim-needs-matcher", "(*completion.Engine).TrimSuffix", "-", "anchor not found")
 	}
 
+	// a matcher registered elsewhere than at the cursor is dropped, not kept for a later line
+	r.Rule("C02.trim-orphan-dropped", "K1", "when the suffix matcher was registered at another position than the character before the cursor, TrimSuffix drops it (stores Engine.sm) before returning: nothing else ever resets the matcher, so an orphan kept alive removes a typed character of a later line that happens to stand at the same index", 1)
+	if TS := p.Func("(*completion.Engine).TrimSuffix"); TS != nil {
+		n := 0
+		eachInstr(TS, func(in ssa.Instruction) {
+			iff, ok := in.(*ssa.If)
+			if !ok {
+				return
+			}
+			bo, ok := iff.Cond.(*ssa.BinOp)
+			if !ok || (bo.Op != token.NEQ && bo.Op != token.EQL) {
+				return
+			}
+			isPos := func(v ssa.Value) bool { return isFieldLoad(v, "completion.SuffixMatcher", "pos") }
+			if !isPos(bo.X) && !isPos(bo.Y) {
+				return
+			}
+			mism := iff.Block().Succs[0]
+			if bo.Op == token.EQL {
+				mism = iff.Block().Succs[1]
+			}
+			// a path from the mismatch successor to a return that never stores Engine.sm
+			seen := map[*ssa.BasicBlock]bool{}
+			var leak ssa.Instruction
+			var dfs func(b *ssa.BasicBlock)
+			dfs = func(b *ssa.BasicBlock) {
+				if seen[b] || leak != nil {
+					return
+				}
+				seen[b] = true
+				for _, x := range b.Instrs {
+					if _, isSt := isFieldStore(x, "completion.Engine", "sm"); isSt {
+						return
+					}
+					if isReturn(x) {
+						leak = x
+						return
+					}
+				}
+				for _, s := range b.Succs {
+					dfs(s)
+				}
+			}
+			dfs(mism)
+			r.Check(leak == nil, "C02.trim-orphan-dropped", siteKey(TS, "position-mismatch", n), p.IPos(iff), "the orphan matcher is dropped on every path", "when the matcher's position is not the character before the cursor TrimSuffix can return without dropping it: the matcher of a candidate completed on an earlier line stays armed, and a typed '/' (or other designated character) at that index of a later line is deleted when a space follows")
+			n++
+		})
+		if n == 0 {
+			r.Unk("C02.trim-orphan-dropped", fnName(TS)+":position-test", p.Pos(TS.Pos()), "TrimSuffix does not compare the matcher's position: anchor changed")
+		}
+	}
+
 	r.Rule("C02.quote-identity", "K4", "strutil.Quote turns an ordinary rune into itself: either it does not run it through the inputrc escape interpreter, or the interpreter returns a one-rune input unchanged (a typed backslash is not the start of an escape)", 1)
 	Q := p.Func("strutil.Quote")
 	if Q == nil {
@@ -675,6 +727,17 @@ func checkC04(c *Ctx) {
 			if n == 0 {
 				r.OK("C04.clear-after-newline", fnName(DLN)+":no-newline", p.Pos(DLN.Pos()), "displayLine prints no explicit newline")
 			}
+		}
+		// ---- whatever was below the line is cleared on every redisplay, menu or not
+		r.Rule("C04.helpers-clear-below", "K1", "completion.Display — the last thing the redisplay prints below the input line — prints ClearScreenBelow on every path to its return, also when there is nothing to list: the rows a longer line occupied before it shrank are cleared only there", 1)
+		if CD := p.Func("completion.Display"); CD != nil && clrBelow != "" {
+			r.Fn(fnName(CD))
+			isClear := func(x ssa.Instruction) bool { return prints(x, clrBelow) }
+			// a deferred print covers the returns that follow it; a direct print covers the path through it
+			w := pathAvoiding(CD, nil, func(x ssa.Instruction) bool { return isReturn(x) && x.Block() != CD.Recover }, isClear)
+			r.Check(w == nil, "C04.helpers-clear-below", fnName(CD)+":every-exit", p.Pos(CD.Pos()), "ClearScreenBelow is printed (or deferred) before every exit", "completion.Display can return without clearing the screen below (the early return taken when there is no completion list): when a command shrinks the line by two rows or more, the old rows stay on screen under the prompt")
+		} else {
+			r.Unk("C04.helpers-clear-below", "completion.Display", "-", "anchor or term.ClearScreenBelow not found")
 		}
 	} else {
 		r.Unk("C04.clear-after-newline", "(*display.Engine).displayLine", "-", "anchor not found")
